@@ -549,7 +549,7 @@ func literalSemantics(res *report.Result, o *onto.Onto) {
 		return p, doc
 	}
 	// durations
-	vals := []int{-1, 0, 1, 12, 200} // -1 = component absent
+	vals := []int{-1, 0, 1, 12, 60, 200} // -1 = component absent
 	n := 0
 	for _, sign := range []string{"", "-"} {
 		for _, y := range vals {
@@ -608,12 +608,15 @@ func literalSemantics(res *report.Result, o *onto.Onto) {
 	}
 	// timestamps
 	instants := []time.Time{}
-	for _, y := range []int{1970, 1999, 2000, 2019, 2020, 2038} {
-		for _, md := range [][2]int{{1, 1}, {2, 28}, {2, 29}, {3, 1}, {12, 31}} {
+	for _, y := range []int{1, 1000, 1900, 1969, 1970, 1999, 2000, 2019, 2020, 2038, 2100, 9999} {
+		for _, md := range [][2]int{{1, 1}, {1, 31}, {2, 28}, {2, 29}, {3, 1}, {4, 30}, {10, 9}, {12, 1}, {12, 31}} {
 			if md[0] == 2 && md[1] == 29 && !(y%4 == 0 && (y%100 != 0 || y%400 == 0)) {
 				continue
 			}
-			for _, hm := range [][3]int{{0, 0, 0}, {23, 59, 59}} {
+			for _, hm := range [][3]int{{0, 0, 0}, {0, 0, 1}, {9, 8, 7}, {12, 0, 0}, {23, 59, 59}} {
+				if (y == 1 || y == 9999) && (md[0] == 1 && md[1] == 1 || md[0] == 12 && md[1] == 31) {
+					continue // a zone offset would carry the local date out of the years 0001..9999
+				}
 				instants = append(instants, time.Date(y, time.Month(md[0]), md[1], hm[0], hm[1], hm[2], 0, time.UTC))
 			}
 		}
@@ -656,7 +659,7 @@ func literalSemantics(res *report.Result, o *onto.Onto) {
 		}
 	}
 	// counts
-	for _, c := range []float64{0, 1, 2147483647, 2147483648, 9007199254740992} {
+	for _, c := range []float64{0, 1, 9, 10, 255, 256, 65535, 65536, 2147483647, 2147483648, 4294967295, 4294967296, 1e15, 9007199254740991, 9007199254740992} {
 		p, doc := get("Collection", "totalItems", c, "ActivityStreamsTotalItems")
 		res.Case(fmt.Sprintf("count|%v", c))
 		if p == nil || !method(p, "IsXMLSchemaNonNegativeInteger").Call(nil)[0].Bool() {
@@ -665,7 +668,7 @@ func literalSemantics(res *report.Result, o *onto.Onto) {
 			res.Violate(fmt.Sprintf("count-value|%v", c), fmt.Sprintf("totalItems %v: Get() = %d", c, got), M{"check": "C12", "doc": doc})
 		}
 	}
-	for _, c := range []float64{-1, 1.5} {
+	for _, c := range []float64{-1, 1.5, -0.5, 0.1, 1e-9, -2147483648} {
 		p, doc := get("Collection", "totalItems", c, "ActivityStreamsTotalItems")
 		res.Case(fmt.Sprintf("count|%v", c))
 		if p != nil && method(p, "IsXMLSchemaNonNegativeInteger").Call(nil)[0].Bool() {
@@ -673,7 +676,7 @@ func literalSemantics(res *report.Result, o *onto.Onto) {
 		}
 	}
 	// floats
-	for _, f := range []float64{0, 1.5, -2.25, 1e10, 3} {
+	for _, f := range []float64{0, 1.5, -2.25, 1e10, 3, -3, 1e-10, -1e-10, 0.1, 1e21, 1e300, -1e300, 5e-324, 123456789.125, 16777217} {
 		p, doc := get("Place", "radius", f, "ActivityStreamsRadius")
 		res.Case(fmt.Sprintf("float|%v", f))
 		if p == nil || !method(p, "IsXMLSchemaFloat").Call(nil)[0].Bool() {
